@@ -187,6 +187,7 @@ def observe(al, case, n_in, ns, lm, maxlen, routes, as_fraction=False, zero_num=
     try:
         f = bld.build(case["expr"])
         obs["build_reads"] = [s.reads for s in srcs]
+        shape0 = (sorted(dict(f.numpoly.terms())), sorted(dict(f.denpoly.terms())))
         xs = [LinForm.sym(i) for i in range(1, n_in + 1)]
         kw = {"zero": LinForm.sym(maxlen + 1) if case["zero"] == "sym" else zero_num}
         if case["mem"] != "none":
@@ -205,6 +206,10 @@ def observe(al, case, n_in, ns, lm, maxlen, routes, as_fraction=False, zero_num=
                 break
     except Exception as ex:                                  # noqa
         obs["err"] = "%s: %s" % (type(ex).__name__, str(ex)[:80])
+    try:      # calling a filter must not change the filter (its terms are what they were before the call)
+        obs["mutated"] = (sorted(dict(f.numpoly.terms())), sorted(dict(f.denpoly.terms()))) != shape0
+    except Exception:
+        obs["mutated"] = False
     obs["reads"] = [s.reads for s in srcs]
     if obs["reads0"] is None:
         obs["reads0"] = list(obs["reads"])
@@ -327,6 +332,9 @@ def m2(ctx, al, module, cfg, maxlen, maxmem):
             if any(obs["reads0"]) and obs["build_reads"] is not None and not any(obs["build_reads"]):
                 ctx.violation("C06:call-reads:%s" % klass, dict(det, why="sources read by the call itself"))
                 bad = True
+            if obs.get("mutated"):
+                ctx.violation("C06:call-changes-the-filter:%s" % klass, dict(det, why="numpoly/denpoly terms differ "
+                                                                             "after the call"))
             if obs["err"] != "none":
                 ctx.violation("C06:%s-end:%s:%s" % (exp_end, klass, obs["err"].split(":")[0]), det)
                 return False
